@@ -91,6 +91,22 @@ Theorem C18_record_complete : forall typed t, In t typed -> starts_with_space t 
   In t (session_run idbang [] typed).
 Proof. exact session_complete. Qed.
 
+(** Several shell processes sharing one database.  The initial previous_cmd of a fresh
+    process is empty whatever rows are stored (Shell::new; history::init does not touch it):
+    what a process records does not depend on the stored rows; in particular the FIRST
+    line typed in a new process is recorded even when it equals a stored row; and the
+    table after any sequence of processes is the old rows followed by each process's
+    own records -- one row per submission, repeats suppressed only within one session. *)
+Theorem C18_record_independent : forall bang s1 s2 p, proc_records bang s1 p = proc_records bang s2 p.
+Proof. exact proc_independent. Qed.
+Theorem C18_record_first : forall stored t rest,
+  starts_with_space t = false -> trim t <> [] ->
+  exists r, proc_records idbang stored (Interactive (t :: rest)) = t :: r.
+Proof. exact first_line_recorded. Qed.
+Theorem C18_record_processes : forall bang ps stored,
+  db_procs bang stored ps = stored ++ concat (map (proc_records bang []) ps).
+Proof. exact db_procs_concat. Qed.
+
 Check C18_full : forall table line status tsb tse session dir,
   insert_rows table (insert_stmt table line status tsb tse session dir) =
   Some [[VStr (trim line); VNum status; VNum tsb; VNum tse; VStr session; VStr (s_dir ++ dir ++ s_bar)]].
@@ -138,3 +154,6 @@ Print Assumptions C18_delete_text.
 Print Assumptions C18_record_rule.
 Print Assumptions C18_record_sound.
 Print Assumptions C18_record_complete.
+Print Assumptions C18_record_independent.
+Print Assumptions C18_record_first.
+Print Assumptions C18_record_processes.
